@@ -17,15 +17,18 @@ MUTANTS = [
  {"name": "h_caller_drops_force_closure", "why": "the C15 defect: the call closure no longer holds the forcing closure", "expect": {"props": ["C15"], "obligation": "caller.new-owns-both-submit-closures"},
   "edits": [(CALLER, "                // a caller is a strong handle: it keeps both halves of the channel alive\n                let _force_tx = &force_tx;\n", "")]},
  {"name": "h_sender_upgrade_closure_holds_strong", "why": "the upgrade closure of a Sender (copied into every WeakSender) holds a strong Arc: a WeakSender keeps the actor alive", "expect": {"props": ["C05"], "obligation": "sender.downgrade-is-weak"},
-  "edits": [(SENDER, "        let upgrade = Box::new(move || {\n            weak_tx", "        let keep_alive = Arc::clone(&tx);\n        let upgrade = Box::new(move || {\n            let _keep = &keep_alive;\n            weak_tx")]},
- {"name": "h_weaksender_from_weak_tx_other_id", "why": "a WeakSender made from the context upgrades to a Sender with a fresh context id: broker subscriptions are keyed by the wrong id", "expect": {"props": ["C15"], "obligation": "weaksender.upgrade-closure-rebuilds-a-full-sender-for-the-same-actor"},
-  "edits": [(WSENDER, "                .map(|(tx, force_tx)| Sender::new(tx, force_tx, id))\n        });\n\n        WeakSender { upgrade, id }", "                .map(|(tx, force_tx)| Sender::new(tx, force_tx, ContextID::default()))\n        });\n\n        WeakSender { upgrade, id }")]},
+  "edits": [(SENDER, "        let weak_tx: Weak<_> = Arc::downgrade(&tx);\n", "        let weak_tx: Weak<_> = Arc::downgrade(&tx);\n        let keep_alive = Arc::clone(&tx);\n"), (SENDER, "        let upgrade = Box::new(move || {\n            weak_tx", "        let upgrade = Box::new(move || {\n            let _keep = &keep_alive;\n            weak_tx")]},
  {"name": "h_sender_send_uses_force_path", "why": "Sender::send goes through the forcing closure: no backpressure through a Sender", "expect": {"props": ["C12"], "obligation": "sender.send-closure-submits-through-the-waiting-closure"},
-  "edits": [(SENDER, """        let send_fn = Box::new(move |msg| {
+  "edits": [(SENDER, """        let weak_tx: Weak<_> = Arc::downgrade(&tx);
+        let weak_force_tx: Weak<_> = Arc::downgrade(&force_tx);
+
+        let send_fn = Box::new(move |msg| {
             tx.send(Payload::task(move |actor, ctx| {
                 Box::pin(Handler::handle(&mut *actor, ctx, msg))
             }))
-        });""", """        let force_tx2 = Arc::clone(&force_tx);
+        });""", """        let weak_tx: Weak<_> = Arc::downgrade(&tx);
+        let weak_force_tx: Weak<_> = Arc::downgrade(&force_tx);
+        let force_tx2 = Arc::clone(&force_tx);
         let send_fn = Box::new(move |msg| -> Pin<Box<dyn Future<Output = Result<()>> + Send>> {
             let _tx = &tx;
             let r = force_tx2.send(Payload::task(move |actor, ctx| {
